@@ -17,6 +17,7 @@ Definition kInvalidArgument : Z := 2.
 Definition kInvalidLabel : Z := 12.
 Definition kLabelAlreadyBound : Z := 14.
 Definition kInvalidSection : Z := 19.
+Definition kInvalidOperandSize : Z := 51.
 Definition kBadIndex : Z := 9990.          (* the harness' own refusal of an edit command whose index does not exist *)
 Definition kOptReserved : Z := 1.
 Definition kAlignData : Z := 1.
@@ -52,13 +53,22 @@ Inductive nkind :=
 | NData (ty tsize cnt rep : Z) (data : bytes)
 | NEmbedLabel (l sz : Z)
 | NEmbedDelta (l b sz : Z)
-| NComment.
+| NComment
+| NConstPool (l align : Z) (data : bytes)     (* ConstPoolNode: a label node that carries a constant pool (what the Compiler creates) *)
+| NSentinel (ty : Z)                          (* SentinelNode: informative, serialized as nothing *)
+| NFunc (l exit : Z)                          (* FuncNode (Compiler): acts as the label l of the function; exit = its exit label *)
+| NFuncEnd (l : Z)                            (* the kFuncEnd sentinel of function l (its identity is the function) *)
+| NFuncRet.                                   (* FuncRetNode (Compiler): an abstract instruction node without operands *)
 
 Record node := mkNode { n_kind : nkind; n_comment : option bytes }.
 
 Definition is_section (n : node) : bool := match n_kind n with NSection _ => true | _ => false end.
 Definition is_section_id (s : Z) (n : node) : bool := match n_kind n with NSection t => s =? t | _ => false end.
-Definition is_label_id (l : Z) (n : node) : bool := match n_kind n with NLabel t => l =? t | _ => false end.
+Definition is_label_id (l : Z) (n : node) : bool := match n_kind n with NLabel t => l =? t | NConstPool t _ _ => l =? t | NFunc t _ => l =? t | _ => false end.
+Definition is_func_end (l : Z) (n : node) : bool := match n_kind n with NFuncEnd t => l =? t | _ => false end.
+Definition kIdAbstract : Z := 2147483648.
+Definition kInvalidState : Z := 3.
+Definition kSentinelFuncEnd : Z := 1.
 
 Definition sec_node (s : Z) : node := mkNode (NSection s) None.
 Definition label_node (l : Z) : node := mkNode (NLabel l) None.
@@ -91,22 +101,25 @@ Record bstate := mkB {
   links : list (Z * option Z);          (* SectionNode::_next_section per section id as last written (first match wins) *)
   dirty : bool;                         (* _dirty_section_links *)
   nlabels : Z; nsections : Z; regsize : Z;
-  p_opts : Z; p_exsig : Z; p_exid : Z; p_comment : option bytes     (* one-shot emitter state *)
+  p_opts : Z; p_exsig : Z; p_exid : Z; p_comment : option bytes;    (* one-shot emitter state *)
+  cur_func : option Z                   (* BaseCompiler::_func: the function being generated (its label id) *)
 }.
 
 Definition init_state (rs : Z) : bstate :=
-  mkB [sec_node 0] (Some 0%nat) [] [] false 0 1 rs 0 0 0 None.
+  mkB [sec_node 0] (Some 0%nat) [] [] false 0 1 rs 0 0 0 None None.
 
 Definition with_list (b : bstate) (a : list node) (c : option nat) (d : bool) : bstate :=
-  mkB a c (pool b) (links b) d (nlabels b) (nsections b) (regsize b) (p_opts b) (p_exsig b) (p_exid b) (p_comment b).
+  mkB a c (pool b) (links b) d (nlabels b) (nsections b) (regsize b) (p_opts b) (p_exsig b) (p_exid b) (p_comment b) (cur_func b).
 Definition with_pool (b : bstate) (p : list node) : bstate :=
-  mkB (active b) (cursor b) p (links b) (dirty b) (nlabels b) (nsections b) (regsize b) (p_opts b) (p_exsig b) (p_exid b) (p_comment b).
+  mkB (active b) (cursor b) p (links b) (dirty b) (nlabels b) (nsections b) (regsize b) (p_opts b) (p_exsig b) (p_exid b) (p_comment b) (cur_func b).
 Definition with_links (b : bstate) (l : list (Z * option Z)) (d : bool) : bstate :=
-  mkB (active b) (cursor b) (pool b) l d (nlabels b) (nsections b) (regsize b) (p_opts b) (p_exsig b) (p_exid b) (p_comment b).
+  mkB (active b) (cursor b) (pool b) l d (nlabels b) (nsections b) (regsize b) (p_opts b) (p_exsig b) (p_exid b) (p_comment b) (cur_func b).
 Definition with_pend (b : bstate) (o s i : Z) (c : option bytes) : bstate :=
-  mkB (active b) (cursor b) (pool b) (links b) (dirty b) (nlabels b) (nsections b) (regsize b) o s i c.
+  mkB (active b) (cursor b) (pool b) (links b) (dirty b) (nlabels b) (nsections b) (regsize b) o s i c (cur_func b).
+Definition with_func (b : bstate) (f : option Z) : bstate :=
+  mkB (active b) (cursor b) (pool b) (links b) (dirty b) (nlabels b) (nsections b) (regsize b) (p_opts b) (p_exsig b) (p_exid b) (p_comment b) f.
 Definition with_counts (b : bstate) (nl ns : Z) : bstate :=
-  mkB (active b) (cursor b) (pool b) (links b) (dirty b) nl ns (regsize b) (p_opts b) (p_exsig b) (p_exid b) (p_comment b).
+  mkB (active b) (cursor b) (pool b) (links b) (dirty b) nl ns (regsize b) (p_opts b) (p_exsig b) (p_exid b) (p_comment b) (cur_func b).
 
 (* BaseBuilder::add_node: insert after the cursor (at the front when the cursor is null), cursor := node *)
 Definition cursor_pos (c : option nat) : nat := match c with None => 0%nat | Some i => S i end.
@@ -167,13 +180,14 @@ Definition do_section (s : Z) (b : bstate) : bstate * Z :=
       (with_list b1 (active b1) c (dirty b1), kOk)
   end.
 
-(* BaseBuilder::bind.  Binding a label whose node is already active is refused (kLabelAlreadyBound): this is the behaviour of the
-   proposed fix fixes/C08-builder-double-bind.patch; the pinned code re-links the active node (assert-only guard) and corrupts the list,
-   which no list model can mirror - the check attributes that shape to the known finding C08/double-bind-through-builder. *)
+(* BaseBuilder::bind.  label_node_of(l) is THE node of the label: a removed (pooled) LabelNode / ConstPoolNode is linked in again, a label
+   that never had a node gets a fresh LabelNode.  Binding a label whose node is already active is refused with kLabelAlreadyBound (/repo d28b073; before that
+   fix the active node was linked a second time and the list corrupted). *)
 Definition do_bind (l : Z) (b : bstate) : bstate * Z :=
   if (l <? 0) || (nlabels b <=? l) then (b, kInvalidLabel)
   else if existsb (is_label_id l) (active b) then (b, kLabelAlreadyBound)
-  else (add_node (label_node l) (with_pool b (remove_first (is_label_id l) (pool b))), kOk).
+  else (add_node (match find (is_label_id l) (pool b) with Some n => n | None => label_node l end)
+                 (with_pool b (remove_first (is_label_id l) (pool b))), kOk).
 
 (* EmitterUtils::op_count_from_emit_args *)
 Definition op_count (o0 o1 o2 o3 o4 o5 : operand) : nat :=
@@ -212,8 +226,13 @@ Inductive cmd :=
 | CNewLabel | CNewSection
 | CSetOptions (o : Z) | CAddOptions (o : Z) | CSetExtra (sg id : Z) | CSetComment (c : option bytes)
 | CEmit (id : Z) (o0 o1 o2 o3 o4 o5 : operand)
+| CEmitRejected (e : Z)      (* an _emit refused by strict validation (kValidateIntermediate / kValidateAssembler) with error e: the validator
+                               itself is opaque to the model, its verdict is an input *)
 | CBind (l : Z) | CAlign (m n : Z) | CEmbed (d : bytes) | CEmbedArray (ty cnt rep : Z) (d : bytes)
 | CEmbedLabel (l sz : Z) | CEmbedDelta (l b sz : Z) | CConstPool (l align : Z) (d : bytes) | CComment (c : bytes) | CSection (s : Z)
+| CConstPoolNode (l align : Z) (d : bytes)     (* new_const_pool_node + ConstPool::add + add_node; l = the label id it registers *)
+| CSentinel (ty : Z)                          (* new_node_t<SentinelNode> + add_node *)
+| CFunc | CFuncRet | CEndFunc                 (* BaseCompiler::add_func_node(void()) / add_func_ret_node(none, none) / end_func *)
 | CSetCursor (i : option nat) | CRemove (i : nat) | CRemoveRange (i j : nat) | CRemovePool (k : nat)
 | CAddAfter (k i : nat) | CAddBefore (k i : nat) | CAddNode (k : nat) | CUpdateLinks.
 
@@ -228,18 +247,38 @@ Definition step (b : bstate) (c : cmd) : bstate * Z :=
   | CSetExtra s i => (with_pend b (p_opts b) s i (p_comment b), kOk)
   | CSetComment c => (with_pend b (p_opts b) (p_exsig b) (p_exid b) c, kOk)
   | CEmit id o0 o1 o2 o3 o4 o5 => do_emit id o0 o1 o2 o3 o4 o5 b
+  | CEmitRejected e => (with_pend b 0 0 0 None, e)     (* log_instruction_failed: reset_state() + report_error; no node *)
   | CBind l => do_bind l b
   | CAlign m n => (add_node (mkNode (NAlign m n) None) b, kOk)
   | CEmbed d => (add_node (data_node kTypeUInt8 1 (Z.of_nat (length d)) 1 d) b, kOk)
   | CEmbedArray ty cnt rep d => do_embed_array ty cnt rep d b
-  | CEmbedLabel l sz => if valid_label_size sz then (add_node (mkNode (NEmbedLabel l sz) None) b, kOk) else (b, kInvalidArgument)
-  | CEmbedDelta l bl sz => if valid_label_size sz then (add_node (mkNode (NEmbedDelta l bl sz) None) b, kOk) else (b, kInvalidArgument)
+  | CEmbedLabel l sz => if valid_label_size sz then (add_node (mkNode (NEmbedLabel l sz) None) b, kOk) else (b, kInvalidOperandSize)
+  | CEmbedDelta l bl sz => if valid_label_size sz then (add_node (mkNode (NEmbedDelta l bl sz) None) b, kOk) else (b, kInvalidOperandSize)
   | CConstPool l al d =>
       if (l <? 0) || (nlabels b <=? l) then (b, kInvalidLabel) else
       let b1 := add_node (mkNode (NAlign kAlignData al) None) b in
       let (b2, e) := do_bind l b1 in
       if e =? kOk then (add_node (data_node kTypeUInt8 1 (Z.of_nat (length d)) 1 d) b2, kOk) else (b2, e)
   | CComment c => (add_node (mkNode NComment (Some c)) b, kOk)
+  | CConstPoolNode l al d =>
+      if l =? nlabels b then (add_node (mkNode (NConstPool l al d) None) (with_counts b (nlabels b + 1) (nsections b)), kOk) else (b, kBadIndex)
+  | CSentinel ty => (add_node (mkNode (NSentinel ty) None) b, kOk)
+  | CFunc =>
+      (* _grab_state(): the inline comment goes to the FuncNode, options and extra register are dropped; new_func_node registers the exit
+         label first, then the function's label; add_func: function node at the cursor, exit label node and end sentinel after it,
+         cursor back on the function node *)
+      let ex := nlabels b in let fl := nlabels b + 1 in
+      let b0 := with_func (with_counts (with_pend b 0 0 0 None) (nlabels b + 2) (nsections b)) (Some fl) in
+      let b1 := add_node (mkNode (NFunc fl ex) (dup_comment (p_comment b))) b0 in
+      let b2 := add_node (mkNode (NFuncEnd fl) None) (add_node (label_node ex) b1) in
+      (with_list b2 (active b2) (cursor b1) (dirty b2), kOk)
+  | CFuncRet => (add_node (mkNode NFuncRet (dup_comment (p_comment b))) (with_pend b 0 0 0 None), kOk)
+  | CEndFunc =>
+      let b0 := with_pend b 0 0 0 None in                      (* reset_state() comes first *)
+      match cur_func b with
+      | None => (b0, kInvalidState)
+      | Some fl => let b1 := with_func b0 None in (with_list b1 (active b1) (find_index (is_func_end fl) (active b1)) (dirty b1), kOk)
+      end
   | CSection s => do_section s b
   | CSetCursor None => (with_list b (active b) None (dirty b), kOk)
   | CSetCursor (Some i) => if in_range i (active b) then (with_list b (active b) (Some i) (dirty b), kOk) else (b, kBadIndex)
@@ -294,6 +333,11 @@ Definition replay_node (n : node) : list cmd :=
   | NEmbedLabel l sz => [CEmbedLabel l sz]
   | NEmbedDelta l bl sz => [CEmbedDelta l bl sz]
   | NComment => [CComment (match n_comment n with Some c => c | None => [] end)]
+  | NConstPool l al d => [CConstPool l al d]          (* dst->embed_const_pool(node->label(), node->const_pool()) *)
+  | NSentinel _ => []
+  | NFunc l _ => [CBind l]                             (* acts as label: dst->bind(node->label()) *)
+  | NFuncEnd _ => []
+  | NFuncRet => [CSetOptions 0; CSetExtra 0 0; CEmit kIdAbstract op_none op_none op_none op_none op_none op_none]   (* acts as instruction *)
   end.
 
 Definition replay (b : bstate) : list cmd := flat_map replay_node (active b).
@@ -323,6 +367,7 @@ Definition front (p : pend) (c : cmd) : pend * list ecall :=
   | CSetExtra s i => (mkP (q_opts p) s i (q_comment p), [])
   | CSetComment c => (mkP (q_opts p) (q_exsig p) (q_exid p) c, [])
   | CEmit id o0 o1 o2 o3 o4 o5 => (pend0, [EInst id (clear_reserved (q_opts p)) (q_exsig p) (q_exid p) (canon_ops o0 o1 o2 o3 o4 o5) (dup_comment (q_comment p))])
+  | CEmitRejected _ => (pend0, [])                      (* the Assembler's failure path resets the one-shot state as well *)
   | CBind l => (p, [EBind l])
   | CAlign m n => (p, [EAlign m n])
   | CEmbed d => (p, [EData kTypeUInt8 (Z.of_nat (length d)) 1 d])
@@ -331,6 +376,8 @@ Definition front (p : pend) (c : cmd) : pend * list ecall :=
   | CEmbedDelta l b sz => (p, [EDelta l b sz])
   | CConstPool l al d => (p, [EAlign kAlignData al; EBind l; EData kTypeUInt8 (Z.of_nat (length d)) 1 d])
   | CComment c => (p, [EComment c])
+  | CConstPoolNode l al d => (p, [EAlign kAlignData al; EBind l; EData kTypeUInt8 (Z.of_nat (length d)) 1 d])   (* = new_label + embed_const_pool *)
+  | CSentinel _ => (p, [])
   | CSection s => (p, [ESection s])
   | _ => (p, [])
   end.
@@ -343,18 +390,23 @@ Fixpoint trace_from (p : pend) (cs : list cmd) : list ecall :=
 Definition trace (cs : list cmd) : list ecall := trace_from pend0 cs.
 
 (* the effective call a node stands for: what serializing it makes the destination emitter perform *)
-Definition node_ecall (n : node) : ecall :=
+Definition node_ecalls (n : node) : list ecall :=
   match n_kind n with
   | NInst id opts es ei opc ops =>
-      EInst id (clear_reserved opts) es ei
-            (canon_ops (rop opc ops 0) (rop opc ops 1) (rop opc ops 2) (rop opc ops 3) (rop opc ops 4) (rop opc ops 5)) (dup_comment (n_comment n))
-  | NSection s => ESection s
-  | NLabel l => EBind l
-  | NAlign m a => EAlign m a
-  | NData ty ts cnt rep d => EData ty cnt rep d
-  | NEmbedLabel l sz => ELabel l sz
-  | NEmbedDelta l bl sz => EDelta l bl sz
-  | NComment => EComment (match n_comment n with Some c => c | None => [] end)
+      [EInst id (clear_reserved opts) es ei
+             (canon_ops (rop opc ops 0) (rop opc ops 1) (rop opc ops 2) (rop opc ops 3) (rop opc ops 4) (rop opc ops 5)) (dup_comment (n_comment n))]
+  | NSection s => [ESection s]
+  | NLabel l => [EBind l]
+  | NAlign m a => [EAlign m a]
+  | NData ty ts cnt rep d => [EData ty cnt rep d]
+  | NEmbedLabel l sz => [ELabel l sz]
+  | NEmbedDelta l bl sz => [EDelta l bl sz]
+  | NComment => [EComment (match n_comment n with Some c => c | None => [] end)]
+  | NConstPool l al d => [EAlign kAlignData al; EBind l; EData kTypeUInt8 (Z.of_nat (length d)) 1 d]
+  | NSentinel _ => []
+  | NFunc l _ => [EBind l]
+  | NFuncEnd _ => []
+  | NFuncRet => [EInst kIdAbstract 0 0 0 (canon_ops op_none op_none op_none op_none op_none op_none) (dup_comment (n_comment n))]
   end.
 
 (* per-section projection of an effective-call sequence: the calls issued while section s is current (ESection itself excluded) *)
@@ -386,5 +438,7 @@ Fixpoint all_ok (b : bstate) (cs : list cmd) : bool :=
 Definition is_emitter_call (c : cmd) : bool :=
   match c with
   | CSetCursor _ | CRemove _ | CRemoveRange _ _ | CRemovePool _ | CAddAfter _ _ | CAddBefore _ _ | CAddNode _ | CUpdateLinks => false
+  | CFunc | CFuncRet | CEndFunc => false   (* Compiler function nodes: what they assemble to is decided by the register-allocation pass *)
+  | CEmitRejected _ => false      (* sequences with refused instructions are outside the recording theorems (see rejected_emit_resets) *)
   | _ => true
   end.
